@@ -198,8 +198,10 @@ def _strategy(rng, nthreads):
 def gen_run(seed: int):
     rng = random.Random(seed)
     c = rng.random()
-    mode = "seq" if c < 0.35 else "conc" if c < 0.75 else "readers" if c < 0.88 else "sys"
+    mode = "seq" if c < 0.33 else "conc" if c < 0.68 else "readers" if c < 0.79 else "zrace" if c < 0.89 else "sys"
     spec = {"prop": PROP, "seed": seed, "mode": mode}
+    if mode == "zrace":
+        return _gen_zrace(rng, spec)
     if mode == "sys":
         return _gen_sys(rng, spec)
     edge = mode == "seq" and rng.random() < 0.3
@@ -273,6 +275,28 @@ def gen_run(seed: int):
         elif op[0] == "sauto":
             op[1] = rng.choice([-1, 1]) * rng.randrange(1, 2**50)
         progs[t].append(op)
+    spec["threads"] = progs
+    spec["strategy"] = _strategy(rng, nthreads)
+    return spec
+
+
+def _gen_zrace(rng, spec):
+    """Several threads share one or two ZonedClocks over real tzdb zones while the wrapped clock jumps by days to months per
+    read, so that consecutive readings lie in different zone intervals: whatever a ZonedClock might remember between calls
+    is stale for the next caller. Judged like any concurrent history (linearizability + rendering)."""
+    spec["mode"] = "conc"
+    spec["edge"] = False
+    spec["zrace"] = True
+    step = rng.choice([-1, 1]) * rng.randrange(1, 200) * NS_DAY + rng.randrange(NS_DAY)
+    spec["init"] = {"ctor": "plain", "now": rng.randrange(-(2**59), 2**60), "auto": step}
+    nz = rng.choice([1, 1, 2])
+    spec["zoned"] = [{"zone": rng.choice(TZ_IDS), "cal": "ISO" if rng.random() < 0.7 else rng.choice(CALENDARS)} for _ in range(nz)]
+    nthreads = rng.choice([2, 2, 3, 4])
+    total = rng.randrange(nthreads * 2, 25)
+    progs = [[] for _ in range(nthreads)]
+    for i in range(total):
+        t = i if i < nthreads else rng.randrange(nthreads)
+        progs[t].append(["z", rng.randrange(nz), rng.choice(["zoned", "offset", "zoned", "instant"])] if rng.random() < 0.9 else ["read"])
     spec["threads"] = progs
     spec["strategy"] = _strategy(rng, nthreads)
     return spec
